@@ -66,6 +66,11 @@ impl<'a, C: SimCfg> Runner<'a, C> {
         share_tracked: bool,
         abort: Option<(usize, u64)>,
     ) -> Result<(), Failure> {
+        let roots: Vec<u32> = roots.iter().copied().filter(|r| self.askable(*r)).collect();
+        let roots = &roots[..];
+        if roots.is_empty() {
+            return Ok(());
+        }
         let engine = self.engine().clone();
         let prog = Arc::new(self.sc.program.clone());
         self.tracked = None;
@@ -310,6 +315,7 @@ impl<'a, C: SimCfg> Runner<'a, C> {
 
     pub(crate) async fn faulted(&mut self, op: &Op, fault: &Fault) -> Result<(), Failure> {
         match (op, fault) {
+            (Op::Query { root, .. }, _) if !self.askable(*root) => Ok(()),
             (Op::Query { root, new_tracked }, Fault::Cancel { n, .. }) => {
                 self.ensure_tracked(*new_tracked).await;
                 self.model.user_request(*root);
